@@ -29,17 +29,18 @@ import (
 const modulePath = "github.com/olric-data/olric"
 
 type HarnessCfg struct {
-	Pkg        string                      `json:"pkg"`  // relative to the repo root, e.g. internal/kvstore
-	Func       string                      `json:"func"` // harness function name
-	Bounds     map[string]map[string]int64 `json:"bounds"`
-	MaxPaths   map[string]int              `json:"max_paths"`
-	Replay     string                      `json:"replay"` // direct | none
-	Tiers      []string                    `json:"tiers"`  // tiers in which the harness runs (default both)
-	Unwind     int                         `json:"unwind"`
-	Retries    int                         `json:"replay_retries"`
-	Validate   *int                        `json:"validate"`
-	AllowBlock bool                        `json:"allow_block"`
-	About      string                      `json:"about"`
+	Pkg          string                      `json:"pkg"`  // relative to the repo root, e.g. internal/kvstore
+	Func         string                      `json:"func"` // harness function name
+	Bounds       map[string]map[string]int64 `json:"bounds"`
+	MaxPaths     map[string]int              `json:"max_paths"`
+	Replay       string                      `json:"replay"` // direct | none
+	Tiers        []string                    `json:"tiers"`  // tiers in which the harness runs (default both)
+	Unwind       int                         `json:"unwind"`
+	Retries      int                         `json:"replay_retries"`
+	Validate     *int                        `json:"validate"`
+	AllowBlock   bool                        `json:"allow_block"`
+	ReplayRounds int                         `json:"replay_rounds"`
+	About        string                      `json:"about"`
 }
 
 type PropCfg struct {
@@ -523,6 +524,10 @@ func cmdCheck(args []string) int {
 		if h.Replay == "none" {
 			nVal = 0
 		}
+		nativeRounds = 1
+		if h.ReplayRounds > 0 {
+			nativeRounds = h.ReplayRounds
+		}
 		f := eng.harnessFn(h.Pkg, h.Func)
 		name := h.Pkg + "." + h.Func
 		res := eng.Explore(f, name, *workers, maxPaths, time.Now().Add(6*time.Hour), nVal)
@@ -773,6 +778,8 @@ func validateNative(ov *overlaySet, h HarnessCfg, cexPath string, s *PathSample)
 var nativeBuilt = map[string]string{}
 
 // runNative builds (once per package) the package's test binary with the overlay and runs TestVerifReplay.
+var nativeRounds = 1
+
 func runNative(ov *overlaySet, pkgDir, cexPath string, timeout time.Duration) (string, bool) {
 	bin, ok := nativeBuilt[pkgDir]
 	if !ok {
@@ -793,7 +800,7 @@ func runNative(ov *overlaySet, pkgDir, cexPath string, timeout time.Duration) (s
 	}
 	cmd := exec.Command("/bin/sh", "-c", fmt.Sprintf("ulimit -v 8000000; exec timeout -s KILL %d %s -test.run '^TestVerifReplay$' -test.v -test.timeout %ds", int(timeout.Seconds())+5, bin, int(timeout.Seconds())))
 	cmd.Dir = filepath.Join(repoDir, pkgDir)
-	cmd.Env = append(goEnv(), "VERIF_REPLAY="+cexPath)
+	cmd.Env = append(goEnv(), "VERIF_REPLAY="+cexPath, fmt.Sprintf("VERIF_REPLAY_ROUNDS=%d", nativeRounds))
 	out, err := cmd.CombinedOutput()
 	timedOut := false
 	if err != nil {
